@@ -55,6 +55,7 @@ func (fx *FuncCtx) mergeStates(base *State, states []*State) *State {
 		if len(g.S) > 40 {
 			name := fx.freshName("g")
 			fx.decls = append(fx.decls, fmt.Sprintf("(define-fun %s () Bool %s)", name, g.S))
+			fx.noteBoolDef(name, g.S)
 			g = Term{name, SBool}
 		}
 		guards[i] = g
@@ -764,6 +765,7 @@ func (fx *FuncCtx) defineBool(base string, c Term) Term {
 	}
 	name := fx.freshName(base)
 	fx.decls = append(fx.decls, fmt.Sprintf("(define-fun %s () Bool %s)", name, c.S))
+	fx.noteBoolDef(name, c.S)
 	return Term{name, SBool}
 }
 
